@@ -286,7 +286,7 @@ P('C12', claimed=True, level='proof',
   technique='contract-based deductive verification: class invariants + two-call lemma functions over the real method bodies, z3')
 
 P('C13', claimed=True, level='other',
-  contracts=['seq_valuepatterns', 'seq_listpatterns', 'seq_filterpatterns', 'seq_oppatterns', 'seq_eventpatterns', 'seq_morepatterns', 'seq_morefilters', 'base_streamconv'], drivers=['vf.drivers.C13'],
+  contracts=['seq_valuepatterns', 'seq_listpatterns', 'seq_filterpatterns', 'seq_oppatterns', 'seq_eventpatterns', 'seq_morepatterns', 'seq_morefilters', 'base_streamconv', 'seq_patternstreams'], drivers=['vf.drivers.C13'],
   level_text=('Generator bodies under contract with `yield` / `yield from` as ghost trace events and per-pass '
               'obligations (the inductive step of the denotation): Pseries/Pgeom (first value = start, each '
               'pass draws the step once, yields the current value, next = current (+|*) step, quiet end on '
@@ -313,7 +313,7 @@ P('C13', claimed=True, level='other',
               'immutability and seeded determinism/support of random patterns are contracts of their own.'),
   level_note='Bounded: first 64 items; corners the documentation leaves open are left unspecified and listed in notes.')
 
-P('C14', claimed=True, level='other', contracts=['seq_event_keys', 'seq_ppar', 'seq_eventpatterns'], drivers=['vf.drivers.C14'],
+P('C14', claimed=True, level='other', contracts=['seq_event_keys', 'seq_ppar', 'seq_eventpatterns', 'seq_patternstreams'], drivers=['vf.drivers.C14'],
   level_text=('The key chains are under contract (pyvc, all numeric values, any scale/tuning as uninterpreted '
               'degree_to_key / spo / octave_ratio): EventDict.__call__ (given value, else key function called '
               'with the event, else default) and every chain function of PitchKeys, DurationKeys and '
